@@ -624,7 +624,10 @@ impl<R: std::io::Read> IntoIterator for FlacSampleReader<R> {
     type Item = Result<i32, Error>;
 
     fn into_iter(self) -> FlacSampleIterator<R> {
-        FlacSampleIterator { reader: self }
+        FlacSampleIterator {
+            reader: self,
+            eof: false,
+        }
     }
 }
 
@@ -675,6 +678,8 @@ impl<R: std::io::Read> IntoIterator for FlacSampleReader<R> {
 #[derive(Clone)]
 pub struct FlacSampleIterator<R> {
     reader: FlacSampleReader<R>,
+    // set once the end of a truncated stream has been reported
+    eof: bool,
 }
 
 impl<R: std::io::Read> Metadata for FlacSampleIterator<R> {
@@ -706,12 +711,21 @@ impl<R: std::io::Read> Iterator for FlacSampleIterator<R> {
     fn next(&mut self) -> Option<Result<i32, Error>> {
         match self.reader.buf.pop_front() {
             Some(sample) => Some(Ok(sample)),
+            None if self.eof => None,
             None => match self.reader.decoder.read_frame() {
                 Ok(Some(frame)) => {
                     self.reader.buf.extend(frame.iter());
                     self.reader.buf.pop_front().map(Ok)
                 }
-                Err(e) => Some(Err(e)),
+                Err(e) => {
+                    // nothing more can follow the end of a truncated stream:
+                    // report it once instead of on every further call
+                    if matches!(&e, Error::Io(err) if err.kind() == std::io::ErrorKind::UnexpectedEof)
+                    {
+                        self.eof = true;
+                    }
+                    Some(Err(e))
+                }
                 Ok(None) => None,
             },
         }
